@@ -314,7 +314,11 @@ def run_case(case):
         it = None
     else:
         pool = None
-        it = iter(S.Stream(src).buffer(size))
+        if case['seed'] % 3 == 0:
+            # the class used directly with its optional external stop event (never set here)
+            it = iter(S.Buffer(src, size, to_stop=threading.Event()))
+        else:
+            it = iter(S.Stream(src).buffer(size))
 
     fz = schedfuzz.SchedFuzz(seed=case['seed'], p=0.02) if case['fuzz'] else schedfuzz.NullFuzz()
     fz.add(Q.SingleLane.put, Q.SingleLane.get, S.fifo_stream, S.Buffer._run_worker, S.Buffer.__iter__)
